@@ -223,6 +223,8 @@ func RegisterSV(ld *Loaded) {
 		return mkStr(out)
 	})
 	reg("Symbolic", func(fr *frame, args []value) value { return true })
+	reg("Failed", func(fr *frame, args []value) value { return false })
+	reg("ResetLog", func(fr *frame, args []value) value { return nil })
 	reg("Ctx", func(fr *frame, args []value) value {
 		// returns *SymCtx with a fresh id
 		p := fr.i.path
